@@ -1,6 +1,7 @@
 """C09 - the Kalman step equals the textbook filter per feature over any track history."""
 import ast
 import json
+import os
 from concurrent.futures import ThreadPoolExecutor
 from fractions import Fraction as Fr
 
@@ -9,7 +10,7 @@ import numpy as np
 ID = "C09"
 PROPS_FILE = "theories/Props/C09.v"
 EXTRACT = ("theories/Extract/XC09.v", "c09",
-           ["entry_run", "entry_spec_run", "entry_abs_run", "entry_models", "entry_alg"])
+           ["entry_run", "entry_spec_run", "entry_abs_run", "entry_run_abs", "entry_models", "entry_alg"])
 PYX = {}
 CASE_TIMEOUT = 60
 TOL = 1e-9
@@ -391,18 +392,56 @@ def _bad(o):
     return (not isinstance(o, dict)) or "exc" in o or "crash" in o
 
 
-def _par(ctx, entry, args, workers=4):
-    """ctx.run_model in a few parallel chunks (the rational arithmetic of the extracted program is slow)"""
-    if len(args) <= 8:
+def _cost(arg):
+    """rough cost of replaying a history: the rationals of a track grow linearly with its age"""
+    sl = len(arg[1])
+    return sum(len(f[0]) for f in arg[2]) * (len(arg[2]) + 2) ** 2 * sl ** 3 + 1
+
+
+def _par(ctx, entry, args, workers=None):
+    """ctx.run_model in parallel chunks, longest-processing-time-first (the rational arithmetic of the
+    extracted program is slow)"""
+    if workers is None:
+        workers = max(4, min(12, (os.cpu_count() or 8) - 2))
+    if len(args) <= 4:
         return ctx.run_model(entry, args)
     ctx.run_model(entry, args[:1])          # builds the executable once, outside the pool
-    chunks = [list(range(k, len(args), workers)) for k in range(workers)]
+    order = sorted(range(len(args)), key=lambda k: -_cost(args[k]))
+    chunks = [[] for _ in range(workers)]
+    load = [0] * workers
+    for k in order:
+        w = load.index(min(load))
+        chunks[w].append(k)
+        load[w] += _cost(args[k])
+    chunks = [c for c in chunks if c]
     res = [None] * len(args)
-    with ThreadPoolExecutor(workers) as ex:
+    with ThreadPoolExecutor(len(chunks)) as ex:
         for ch, rs in zip(chunks, ex.map(lambda ch: ctx.run_model(entry, [args[k] for k in ch]), chunks)):
             for k, r in zip(ch, rs):
                 res[k] = r
     return res
+
+
+_run_cache = {}
+
+
+def _run_abs(ctx, args):
+    """entry_run_abs on [H, A, frames] arguments, memoised for the life of the process: the batched model's
+    states and (by C09_fresh_refines_trace) the per-feature specification come out of one evaluation"""
+    keys = [json.dumps(a, separators=(",", ":")) for a in args]
+    todo = {}
+    for k, a in zip(keys, args):
+        if k not in _run_cache and k not in todo:
+            todo[k] = a
+    if todo:
+        ks = list(todo)
+        for k, r in zip(ks, _par(ctx, "entry_run_abs", [todo[k] for k in ks])):
+            _run_cache[k] = r
+        if len(_run_cache) > 6000:
+            for k in list(_run_cache)[:len(_run_cache) - 6000]:
+                if k not in keys:
+                    del _run_cache[k]
+    return [_run_cache[k] for k in keys]
 
 
 _models_cache = {}
@@ -479,8 +518,9 @@ def model(ctx, cases, outs):
     ki = [k for k, c in enumerate(cases) if c["fn"] == "kalman"]
     ai = [k for k, c in enumerate(cases) if c["fn"] == "alg"]
     args = [[mats[cases[k]["model"]][0], mats[cases[k]["model"]][1], _frames_sx(cases[k])] for k in ki]
-    for k, r in zip(ki, _par(ctx, "entry_run", args)):
-        res[k] = {"run": r, "om": mats[cases[k]["model"]][0], "tm": mats[cases[k]["model"]][1]}
+    for k, r in zip(ki, _run_abs(ctx, args)):
+        run = r if (isinstance(r, dict) or r == []) else [[st[0] for st in r[0]]]
+        res[k] = {"run": run, "om": mats[cases[k]["model"]][0], "tm": mats[cases[k]["model"]][1]}
     for k, r in zip(ai, ctx.run_model("entry_alg", [_alg_arg(cases[k]) for k in ai])):
         res[k] = r
     return res
@@ -607,7 +647,17 @@ def check(ctx, cases, outs):
         elif c["fn"] == "kalman":
             ki.append(k)
     args = [list(_doc_mats(cases[k]["model"])) + [_frames_sx(cases[k])] for k in ki]
-    for k, r in zip(ki, _par(ctx, "entry_spec_run", args)):
+    specs = []
+    for r in _run_abs(ctx, args):
+        specs.append(r if (isinstance(r, dict) or r == []) else [[st[1] for st in r[0]]])
+    # the abstraction of the batched run IS the per-feature specification (theorem); re-checked at run time
+    # against the separately extracted specification on a sub-sample
+    sub = [j for j in range(len(ki)) if j % 8 == 0 and _cost(args[j]) < 4e6][:40]
+    if sub:
+        for j, r in zip(sub, _par(ctx, "entry_spec_run", [args[j] for j in sub])):
+            if r != specs[j]:
+                raise RuntimeError("extracted entry_spec_run differs from abs(entry_run) on case %d" % ki[j])
+    for k, r in zip(ki, specs):
         res[k] = _check_kalman(cases[k], outs[k], r)
     ai = [k for k, c in enumerate(cases) if c["fn"] == "alg" and res[k] is None]
     for k, r in zip(ai, ctx.run_model("entry_alg", [_alg_arg(cases[k]) for k in ai])):
